@@ -53,7 +53,34 @@ def rebuild_if_needed(verbose=False):
     if stale_pyx and os.environ.get("VERIF_QUIET_PYX") is None:
         print("NOTE: %d .pyx newer than generated .c (no Cython here; compiled code unchanged): %s" % (
             len(stale_pyx), ", ".join(stale_pyx[:5])))
+    worldpack_note()
     return n
+
+
+def worldpack_note():
+    """the package installs the shipped worlds from WorldPack.zip, not from the loose .toml files next to it: an edit of a loose
+    file alone cannot reach the code under test - say so instead of silently checking the old world"""
+    import zipfile
+    try:
+        import tomllib
+    except ImportError:        # pragma: no cover
+        return
+    d = os.path.join(REPO, "TidalPy", "WorldPack")
+    zp = os.path.join(d, "WorldPack.zip")
+    if not os.path.isfile(zp) or os.environ.get("VERIF_QUIET_PYX") is not None:
+        return
+    bad = []
+    try:
+        with zipfile.ZipFile(zp) as z:
+            for nme in z.namelist():
+                loose = os.path.join(d, os.path.basename(nme))
+                if nme.endswith(".toml") and os.path.isfile(loose):
+                    if tomllib.loads(z.read(nme).decode()) != tomllib.loads(open(loose).read()):
+                        bad.append(os.path.basename(nme))
+    except Exception as ex:
+        bad.append("(unreadable: %s)" % type(ex).__name__)
+    if bad:
+        print("NOTE: shipped world files differ from WorldPack.zip (the package reads the zip; loose-file edits have no effect): %s" % ", ".join(bad[:6]))
 
 
 if __name__ == "__main__":
